@@ -426,7 +426,7 @@ static int parse_case(char* line) {
 static void run_case(char* line) {
   int i, t;
   struct sigaction sa;
-  alarm(20);
+  alarm(10);
   if (parse_case(line) != 0) fatal("parse");
   if (uv_loop_init(&loop) != 0) fatal("uv_loop_init");
   for (i = 0; i < nh; i++) {
